@@ -1,6 +1,8 @@
 package rules
 
 import (
+	"strings"
+
 	"golang.org/x/tools/go/ssa"
 
 	"polyverif/core"
@@ -55,10 +57,7 @@ func checkBaseFeeShape(c *core.Ctx) {
 		} else if isBig(cl.Common().Args[1], "Big0") {
 			lower = "0"
 		}
-		what := "?"
-		if inner, _ := ir.CallOf(cl.Common().Args[0]); inner != nil && ir.CalleeObj(inner) != nil {
-			what = ir.CalleeObj(inner).Name() // Div (the delta) or Sub (the new fee)
-		}
+		what := bigOpOf(cl.Common().Args[0], 0) // Div (the delta) or Sub (the new fee)
 		clamps = append(clamps, clamp{cl, br, lower, what})
 	}
 	okUp, okDown, extra := false, false, 0
@@ -84,9 +83,42 @@ func checkBaseFeeShape(c *core.Ctx) {
 			continue
 		}
 		a := ci.Common().Args
-		if d, _ := ir.CallOf(a[len(a)-1]); d != nil && ir.CalleeObj(d) != nil && ir.CalleeObj(d).Name() == "Div" && isFieldNamed(a[len(a)-2], "BaseFee") {
+		if bigOpOf(a[len(a)-1], 0) == "Div" && isFieldNamed(a[len(a)-2], "BaseFee") {
 			okSub = true
 		}
 	}
 	c.Decide(okSub, "C28.eip1559", fn, "falling fee = parent.BaseFee − ⌊⌊BaseFee·Δ/target⌋/denominator⌋ (no minimum step)", c.P.Rel(fn.Pos()), "")
+}
+
+// bigOpOf names the big.Int operation whose result v is ("Div", "Sub", …).  A
+// module helper that computes the number is looked through: all its returns
+// must be results of the same operation.
+func bigOpOf(v ssa.Value, depth int) string {
+	cl, idx := ir.CallOf(v)
+	if cl == nil || ir.CalleeObj(cl) == nil {
+		return "?"
+	}
+	h := cl.Common().StaticCallee()
+	if depth < 3 && h != nil && len(h.Blocks) > 0 && h.Pkg != nil && h.Pkg.Pkg != nil && strings.HasPrefix(h.Pkg.Pkg.Path(), ir.Mod) {
+		if idx < 0 {
+			idx = 0
+		}
+		op := ""
+		for _, b := range h.Blocks {
+			ret, ok := b.Instrs[len(b.Instrs)-1].(*ssa.Return)
+			if !ok || idx >= len(ret.Results) {
+				continue
+			}
+			o := bigOpOf(ret.Results[idx], depth+1)
+			if op != "" && o != op {
+				return "?"
+			}
+			op = o
+		}
+		if op != "" {
+			return op
+		}
+		return "?"
+	}
+	return ir.CalleeObj(cl).Name()
 }
